@@ -31,7 +31,8 @@ MODES = (
     ('hybrid', 'native', None, {'flat_max_words': 3}),
     ('measure', 'native-measure', None, {}),
 )
-KINDS = ('lib', 'eof', 'foreign', 'foreign-os', 'foreign-eoferror', 'kbd', 'pending')  # foreign: ValueError / BrokenPipeError (an OSError) / the builtin EOFError
+KINDS = ('lib', 'eof', 'foreign', 'foreign-os', 'foreign-eoferror', 'foreign-memory', 'foreign-recursion', 'foreign-stopiteration', 'foreign-assertion',
+         'foreign-lookup', 'kbd', 'pending')  # foreign: ValueError / BrokenPipeError (an OSError) / the builtin EOFError
 
 
 class _Lib(Exception):
@@ -183,6 +184,9 @@ def run_fault(image, path, answers, k, kind, mode, classes_, probe):
         dev = PendingDevice(k)
     else:
         exc = {'lib': InjectedDeviceError('injected'), 'eof': IOReadOnEOF('injected eof'), 'foreign': ValueError('injected'), 'foreign-os': BrokenPipeError('injected'), 'foreign-eoferror': EOFError('injected'),
+               # exception classes an engine or its caller might be tempted to treat specially (out of memory, stack depth, iteration protocol ...)
+               'foreign-memory': MemoryError('injected'), 'foreign-recursion': RecursionError('injected'), 'foreign-stopiteration': StopIteration('injected'),
+               'foreign-assertion': AssertionError('injected'), 'foreign-lookup': KeyError('injected'),
                'kbd': KeyboardInterrupt()}[kind]
         dev = FaultDevice(answers, k, exc)
     obs = {'raised': None, 'same_object': None, 'cause_chained': None}
